@@ -23,7 +23,12 @@ func vC02Core(nthreads, per int) {
 		obs = Serialize[int64]()(NewUnsafeObservableWithContext(subscribe))
 	}
 	rec := &vRecorder{yield: true, quiet: true}
-	obs.SubscribeWithContext(context.Background(), vObs(rec, vFlatInt))
+	if vChoice("raw", 2) == 1 {
+		// a hand-written observer without a closed flag of its own
+		obs.SubscribeWithContext(context.Background(), &vRawObserver{rec})
+	} else {
+		obs.SubscribeWithContext(context.Background(), vObs(rec, vFlatInt))
+	}
 	for t := 0; t < nthreads; t++ {
 		t := t
 		vGo(func() {
